@@ -889,7 +889,8 @@ def run(index: RepoIndex, rep) -> None:
     ic = index.func('gym_gridverse/utils/custom.py', 'import_if_custom')
     b = ic.body()
     p = ic.node.args.args[0].arg
-    rep.check(len(b) == 1 and src(b[0]) == f'return import_custom({p}) if is_custom({p}) else {p}',
+    from ..view import value_text
+    rep.check(value_text(index, ic) == f'import_custom({p}) if is_custom({p}) else {p}',
               'C17.R5', 'gym_gridverse/utils/custom.py', 'import_if_custom', ic.node.lineno,
               src(b[-1]), 'import_if_custom does not pass plain names through unchanged',
               'import_if_custom')
